@@ -566,6 +566,15 @@ theorem construction_sites_fresh :
    record_site_is_layers, bind_site_is_operands, ctx_site_is_operands⟩
 
 open Context.Heap in
+/-- `patch_list_is_new_object`: over ANY heap of list objects and however `patch` is reached, the patcher list
+handed to the new logger is an object that did not exist before and every existing list object – the receiver's
+in particular – is left as it is (the regenerated site `Gen.patchListExpr` evaluated by the generic `eval`). -/
+theorem patch_list_is_new_object {α : Type} [Inhabited α] (comb : List α → α) (heap : List α) (env : PSrc → Nat)
+    (g : List Bool) :
+    ∃ d, eval comb heap env g Gen.patchListExpr = (heap ++ [d], heap.length) :=
+  eval_aliasFree comb heap env _ patch_site_fresh g
+
+open Context.Heap in
 /-- `heap_separation`: after ANY trace – logging calls whose patchers/sinks do anything to the record's extra,
 callers mutating whatever they own or were handed, blocks, tasks, derived loggers – the objects loguru shares
 internally are disjoint from `core.extra` and from everything the caller can reach. -/
